@@ -18,7 +18,8 @@ RULE = ("ordered 1:1 binding lists (empty prefix, IRIs with and without '/' or '
         "with the option off the independent decoder sees no namespace row and version 1 (version 2 with it on). rdflib "
         "stores are checked in two tiers: (i) reader made the documented way (Graph()/Dataset()): namespaces() equals the "
         "source's; (ii) reader made with bind_namespaces='none': exactly the declared bindings, in order, and "
-        "re-serialization writes exactly those. Non-trivial: the binding list causes >= 1 eviction or contains the empty "
+        "re-serialization writes exactly those; a Graph whose NamespaceManager is shared (it lives on another graph's store) declares "
+        "what Graph.namespaces() lists. Non-trivial: the binding list causes >= 1 eviction or contains the empty "
         "prefix; distinct by hash of (config, bindings, statements).")
 ASSUMPTIONS = [
     "binding sets avoid rdflib's default prefixes/namespaces and are 1:1 for rdflib stores (so rdflib's own bind() never has to rename); generic sinks also get two prefixes for one namespace",
@@ -252,6 +253,22 @@ def judge_rdflib(cfg, stmts, ns, mode):
     again = prefix_events(pj.parse("rdflib", "flat", out.getvalue()))
     if again != got:      # re-serializing what was read reproduces exactly the bindings the reader holds
         return _ns_diff("reserialized-declarations-differ", "rdflib", again, got)
+    # a source whose namespace manager is SHARED: one NamespaceManager (living on a graph of its own) assigned to the graph that
+    # is written - what Graph.namespaces() lists is what a caller has "bound on the graph"
+    if not dataset:
+        nm = rdflib.namespace.NamespaceManager(rdflib.Graph(bind_namespaces="none"), bind_namespaces="none")
+        for p_, i_ in ns:
+            nm.bind(p_, rdflib.URIRef(i_), override=True, replace=True)
+        shared = rdflib.Graph(namespace_manager=nm) if len(ns) % 2 else rdflib.Graph(bind_namespaces="none")
+        shared.namespace_manager = nm
+        for st in stmts:
+            shared.add(tuple(T.to_rdflib(t) for t in st))
+        out = io.BytesIO()
+        shared.serialize(out, format="jelly", options=pj.make_options(on), stream=pj.make_stream(on))
+        got_sh = prefix_events(pj.parse("generic", "flat", out.getvalue()))
+        if got_sh != _rd_ns(shared):
+            return _ns_diff("prefix-events-differ", "rdflib Graph with a shared NamespaceManager (bindings live on another store)",
+                            got_sh, _rd_ns(shared))
     # tier (i): the documented way - source and reader both carry rdflib's default bindings
     src = _rd_store(stmts, [], dataset, "rdflib") if not dataset else rdflib.Dataset()
     if dataset:
